@@ -167,7 +167,7 @@ def run_ub(case):
 
 def legs(tier):
     ml = 8 if tier == 'quick' else 12
-    return [Leg('lower-bound', _case_lb(ml), run_lb, 4000, 160000), Leg('upper-bound', _case_ub(ml), run_ub, 4000, 160000)]
+    return [Leg('lower-bound', _case_lb(ml), run_lb, 12000, 160000), Leg('upper-bound', _case_ub(ml), run_ub, 12000, 160000)]
 
 
 REGIONS = {}
